@@ -171,6 +171,33 @@ thread_local! {
     static LAST_PANIC_LOCATION: std::cell::RefCell<String> = std::cell::RefCell::new(String::new());
 }
 
+// ---------------------------------------------------------------------------
+// Watchdog: a case that does not finish (a hang inside kiki, or inside the harness) must not hang the check.
+
+/// What the calling thread is currently feeding to kiki (set by `outcome::generate`), keyed by shard slot.
+static CURRENT_INPUT: Mutex<Vec<Option<String>>> = Mutex::new(Vec::new());
+
+thread_local! {
+    static SHARD_SLOT: std::cell::Cell<usize> = std::cell::Cell::new(usize::MAX);
+}
+
+pub fn note_current_input(text: Option<&str>) {
+    let slot = SHARD_SLOT.with(|c| c.get());
+    if slot == usize::MAX {
+        return;
+    }
+    if let Ok(mut v) = CURRENT_INPUT.lock() {
+        if slot < v.len() {
+            v[slot] = text.map(|t| t.to_string());
+        }
+    }
+}
+
+/// Seconds a single case may take before the run is declared inconclusive (exit 2).
+pub fn case_timeout_secs() -> u64 {
+    std::env::var("VERIF_CASE_TIMEOUT").ok().and_then(|s| s.parse().ok()).unwrap_or(180)
+}
+
 /// Runs `test` on `cases` generated values, split over `ctx.threads` shards.
 /// `test(value, stats)` must be deterministic. Stats are only recorded until a
 /// shard's first failure (the closure is re-run during shrinking).
@@ -187,7 +214,72 @@ where
     let failures: Mutex<Vec<Failure>> = Mutex::new(vec![]);
     let stop = AtomicBool::new(false);
     let label_hash = hash_of(&label);
+    // heartbeat per shard + monitor thread
+    let beats: Vec<std::sync::atomic::AtomicU64> = (0..shards).map(|_| std::sync::atomic::AtomicU64::new(0)).collect();
+    let finished = AtomicBool::new(false);
+    if let Ok(mut v) = CURRENT_INPUT.lock() {
+        v.clear();
+        v.resize(shards as usize, None);
+    }
+    let prop_name = ctx.prop.clone();
+    let root = ctx.root.clone();
     std::thread::scope(|sc| {
+        {
+            let beats = &beats;
+            let finished = &finished;
+            let prop_name = prop_name.clone();
+            let root = root.clone();
+            sc.spawn(move || {
+                let limit = case_timeout_secs();
+                let mut last: Vec<(u64, std::time::Instant)> = beats.iter().map(|b| (b.load(Ordering::Relaxed), std::time::Instant::now())).collect();
+                loop {
+                    for _ in 0..10 {
+                        if finished.load(Ordering::Relaxed) {
+                            return;
+                        }
+                        std::thread::sleep(std::time::Duration::from_millis(100));
+                    }
+                    for (i, b) in beats.iter().enumerate() {
+                        let v = b.load(Ordering::Relaxed);
+                        if v == u64::MAX {
+                            continue; // shard done
+                        }
+                        if v != last[i].0 {
+                            last[i] = (v, std::time::Instant::now());
+                        } else if last[i].1.elapsed().as_secs() > limit {
+                            let input = CURRENT_INPUT.lock().ok().and_then(|v| v.get(i).cloned().flatten());
+                            let mut kept = String::new();
+                            if let Some(t) = &input {
+                                let dir = root.join("replays").join(&prop_name);
+                                let _ = std::fs::create_dir_all(&dir);
+                                let p = dir.join(format!("watchdog-{:016x}.json", hash_of(t)));
+                                let _ = std::fs::write(&p, serde_json::to_string_pretty(&json!({"property": prop_name, "kind": "watchdog", "case": {"source": t}})).unwrap());
+                                kept = format!(" input kept at {}", p.display());
+                            }
+                            // C07 ("never loops"): a small input is re-run alone in a child process with a much longer
+                            // limit; only a doubly confirmed non-return on an input whose normal cost is micro- to
+                            // milliseconds is reported as a violation
+                            if prop_name == "C07" {
+                                if let Some(t) = &input {
+                                    if t.len() <= 4096 && crate::props::total::confirm_hang(&root, t) {
+                                        let dir = root.join("replays").join(&prop_name);
+                                        let p = dir.join(format!("watchdog-{:016x}.json", hash_of(t)));
+                                        eprintln!("--- violation does-not-terminate ---\ngenerate did not return on a {}-byte input, neither within {limit} s in-process nor within the confirmation limit in a fresh child process\n", t.len());
+                                        println!("VIOLATION property={prop_name} replay={}", p.display());
+                                        std::process::exit(1);
+                                    }
+                                }
+                            }
+                            println!(
+                                "INCONCLUSIVE property={prop_name} watchdog: one case did not finish within {limit} s (a hang in kiki or in the harness; non-termination cannot be decided by testing).{kept}"
+                            );
+                            std::process::exit(2);
+                        }
+                    }
+                }
+            });
+        }
+        let mut handles = vec![];
         for shard in 0..shards {
             let all_stats = &all_stats;
             let failures = &failures;
@@ -196,9 +288,11 @@ where
             let stop = &stop;
             let seed = ctx.seed;
             let shrink_iters = ctx.shrink_iters;
-            std::thread::Builder::new()
+            let beat = &beats[shard as usize];
+            let h = std::thread::Builder::new()
                 .stack_size(64 << 20)
                 .spawn_scoped(sc, move || {
+                    SHARD_SLOT.with(|c| c.set(shard as usize));
                     let mut cfg = Config::default();
                     cfg.cases = per as u32;
                     cfg.failure_persistence = None;
@@ -213,6 +307,7 @@ where
                     let stats = std::cell::RefCell::new(Stats::default());
                     let failed = std::cell::Cell::new(false);
                     let res = runner.run(&strategy, |v| {
+                        beat.fetch_add(1, Ordering::Relaxed);
                         if stop.load(Ordering::Relaxed) && !failed.get() {
                             // another shard already failed: finish quickly
                             return Ok(());
@@ -256,9 +351,15 @@ where
                         }
                     }
                     all_stats.lock().unwrap().merge(stats.into_inner());
+                    beat.store(u64::MAX, Ordering::Relaxed);
                 })
                 .unwrap();
+            handles.push(h);
         }
+        for h in handles {
+            let _ = h.join();
+        }
+        finished.store(true, Ordering::Relaxed);
     });
     RunOutcome { stats: all_stats.into_inner().unwrap(), failures: failures.into_inner().unwrap() }
 }
